@@ -181,7 +181,7 @@ def check(run):
         return
     found_before = len(run.violations) + len(run.known_hit)
     progs, metas = [], []
-    for _ in range(5000 if thorough else 700):
+    for _ in range(8000 if thorough else 2500):
         lines, meta = fault_program(rng, rng.choice(["x64", "x86", "a64", "rv"]))
         progs.append(lines)
         metas.append(meta)
